@@ -252,6 +252,53 @@ theorem remFold_all {P : Option Int → WTx → Prop} {g : State → WTx → Sta
   intro k hk hc
   exact h6 k (fun w hw h => hk (h ▸ List.mem_map_of_mem (f := (·.tx)) hw)) hc
 
+/-- entries the step function is bound to keep stay to the end of the fold -/
+theorem remFold_keeps {P : Option Int → WTx → Prop} {g : State → WTx → State} (hg : RemStep P g)
+    (K : Cfg → WTx → Prop)
+    (hk : ∀ st w, Inv st → w.tx ∈ keys st → K st.cfg w → Core (g st w) = Core st)
+    (l : List WTx) : ∀ (st : State), Inv st → (∀ w ∈ l, w.tx ∈ keys st) → (l.map (·.tx)).Nodup →
+    ∀ w ∈ l, K st.cfg w → w.tx ∈ keys (l.foldl g st) := by
+  induction l with
+  | nil => intro st _ _ _ w hw; cases hw
+  | cons e rest ih =>
+    intro st hi hmem hnd w hw hK
+    simp only [List.foldl_cons]
+    have hnd' : (rest.map (·.tx)).Nodup := (List.nodup_cons.1 hnd).2
+    have hne : ∀ e' ∈ rest, e'.tx ≠ e.tx := by
+      intro e' he' heq
+      have hm : e'.tx ∈ rest.map (·.tx) := List.mem_map_of_mem (f := (·.tx)) he'
+      rw [heq] at hm
+      exact (List.nodup_cons.1 hnd).1 hm
+    have hin : e.tx ∈ keys st := hmem e List.mem_cons_self
+    -- state after the head step: invariant, cfg, membership of the rest
+    have hstep : Inv (g st e) ∧ (g st e).cfg = st.cfg ∧ (∀ w' ∈ rest, w'.tx ∈ keys (g st e)) := by
+      rcases hg.core st e hi hin with ⟨hc, _⟩ | hc
+      · have hk1 : keys (g st e) = keys st := by
+          have := congrArg (·.1) hc; simpa [Core] using this
+        have hcfg : (g st e).cfg = st.cfg := by
+          have := congrArg (·.2.2.2.1) hc; simpa [Core] using this
+        exact ⟨inv_of_core hc hi, hcfg, fun w' hw' => by rw [hk1]; exact hmem w' (List.mem_cons_of_mem _ hw')⟩
+      · have hk1 : keys (g st e) = keys (removeElem st e) := by
+          have := congrArg (·.1) hc; simpa [Core] using this
+        have hcfg : (g st e).cfg = st.cfg := by
+          have := congrArg (·.2.2.2.1) hc
+          have h0 : (g st e).cfg = (removeElem st e).cfg := by simpa [Core] using this
+          exact h0
+        refine ⟨inv_of_core hc (inv_removeElem hi e hin), hcfg, ?_⟩
+        intro w' hw'
+        rw [hk1, keys_removeElem]
+        exact (List.mem_erase_of_ne (hne w' hw')).2 (hmem w' (List.mem_cons_of_mem _ hw'))
+    obtain ⟨hi1, hcfg1, hmem1⟩ := hstep
+    cases hw with
+    | head =>
+      -- the head itself is kept, and no later step touches it
+      have hc := hk st e hi hin hK
+      have hk1 : keys (g st e) = keys st := by
+        have := congrArg (·.1) hc; simpa [Core] using this
+      obtain ⟨_, _, _, _, _, _, h7, _⟩ := remFold hg rest (g st e) hi1 hmem1 hnd'
+      exact h7 e.tx (hk1 ▸ hin) (fun w' hw' => hne w' hw')
+    | tail _ hw => exact ih (g st e) hi1 hmem1 hnd' w hw (hcfg1 ▸ hK)
+
 theorem remStep_removeElem : RemStep (fun _ _ => True) removeElem :=
   ⟨fun _ _ _ _ => Or.inr rfl, fun _ _ _ _ h => h⟩
 
@@ -635,6 +682,38 @@ theorem checkTx_spec {s : State} (hi : Inv s) (tx : Bytes) (v : Verdict) :
             { tx := tx, height := s.height, seq := s.clock, gas := 0, prio := 0, sender := "" } v
         exact ⟨h1, h2, h5, h6, h7, h8⟩
 
+/-! ### peer bookkeeping leaves the core alone -/
+
+theorem recordPeer_keys (s : State) (tx : Bytes) (p : Nat) : keys (recordPeer s tx p) = keys s := by
+  simp only [keys, recordPeer, List.map_map]
+  apply List.map_congr_left
+  intro e _
+  simp only [Function.comp]
+  split
+  · split <;> rfl
+  · rfl
+
+theorem recordPeer_has (s : State) (tx : Bytes) (p : Nat) :
+    ∀ e ∈ (recordPeer s tx p).txs, e.tx = tx → p ∈ e.peers := by
+  intro e he hetx
+  simp only [recordPeer, List.mem_map] at he
+  obtain ⟨e0, _, rfl⟩ := he
+  by_cases h0 : e0.tx = tx
+  · by_cases hp : p ∈ e0.peers <;> simp [h0, hp]
+  · simp only [h0, if_false] at hetx
+
+theorem checkTxFrom_core (s : State) (tx : Bytes) (v : Verdict) (p : Nat) :
+    Core (checkTxFrom s tx v p).1 = Core (checkTx s tx v).1 ∧
+    (checkTxFrom s tx v p).1.cache = (checkTx s tx v).1.cache := by
+  unfold checkTxFrom
+  simp only
+  split
+  · exact ⟨by simp only [Core, recordPeer_keys]; rfl, rfl⟩
+  · split
+    · exact ⟨by simp only [Core, recordPeer_keys]; rfl, rfl⟩
+    · exact ⟨rfl, rfl⟩
+  · exact ⟨rfl, rfl⟩
+
 /-! ### Update -/
 
 theorem commitOne_spec {s : State} (hi : Inv s) (c : Bytes × Nat) :
@@ -684,6 +763,87 @@ theorem purge_spec {s : State} (hi : Inv s) (h : Int) (expired : WTx → Bool) :
   · exact ⟨hi, rfl, rfl, fun h => h, fun _ h => h, fun _ _ h => h⟩
   · obtain ⟨h1, h2, h3, h4, _, h6, h7⟩ := remFold_all (remStep_purgeOne h expired) hi
     exact ⟨h1, h2, h3, h7, h4, h6⟩
+
+/-- who `purgeExpiredTxs` removes -/
+def ttlExpired (cfg : Cfg) (h : Int) (expired : WTx → Bool) (w : WTx) : Prop :=
+  (cfg.ttlNumBlocks > 0 ∧ h - w.height > cfg.ttlNumBlocks) ∨ (cfg.ttlDuration = true ∧ expired w = true)
+
+theorem remStep_purgeOne' (h : Int) (expired : WTx → Bool) :
+    RemStep (fun _ _ => True) (purgeOne h expired) := remStep_purgeOne h expired
+
+/-- **ttl_purges_exactly_expired**: after `purgeExpiredTxs`, an entry of the pool is still there iff
+neither TTL rule applies to it. -/
+theorem purge_exact {s : State} (hi : Inv s) (h : Int) (expired : WTx → Bool) :
+    ∀ w ∈ s.txs, (w.tx ∈ keys (purgeExpiredTxs s h expired) ↔ ¬ ttlExpired s.cfg h expired w) := by
+  classical
+  intro w hw
+  unfold purgeExpiredTxs
+  split
+  · rename_i hoff
+    constructor
+    · intro _ hx
+      rcases hx with ⟨h1, _⟩ | ⟨h1, _⟩
+      · rw [hoff.1] at h1; omega
+      · rw [hoff.2] at h1; cases h1
+    · intro _; exact List.mem_map_of_mem (f := (·.tx)) hw
+  · constructor
+    · -- still there ⇒ not expired: an expired entry is removed by its own step and never re-added
+      intro hk hx
+      -- direct argument through the exact step behaviour
+      have hrem : RemStep (fun _ w' => ¬ ttlExpired s.cfg h expired w') (fun st w' =>
+          if st.cfg = s.cfg then purgeOne h expired st w' else removeElem st w') := by
+        constructor
+        · intro st w' _ _
+          by_cases hcfg : st.cfg = s.cfg
+          · simp only [hcfg, if_true]
+            unfold purgeOne
+            split
+            · right; rfl
+            · rename_i h1
+              split
+              · right; rfl
+              · rename_i h2
+                left
+                refine ⟨rfl, ?_⟩
+                intro hx'
+                rcases hx' with hx' | hx'
+                · rw [← hcfg] at hx'; exact h1 hx'
+                · rw [← hcfg] at hx'; exact h2 ⟨by simpa using hx'.1, hx'.2⟩
+          · simp only [hcfg, if_false]; right; trivial
+        · intro st w' k hne hc
+          by_cases hcfg : st.cfg = s.cfg
+          · simp only [hcfg, if_true]; exact (remStep_purgeOne h expired).cache st w' k hne hc
+          · simp only [hcfg, if_false]; exact hc
+      -- the guarded step function coincides with purgeOne along the fold (cfg never changes)
+      have hsame : ∀ (l : List WTx) (st : State), st.cfg = s.cfg →
+          l.foldl (fun st w' => if st.cfg = s.cfg then purgeOne h expired st w' else removeElem st w') st =
+          l.foldl (purgeOne h expired) st := by
+        intro l
+        induction l with
+        | nil => intro st _; rfl
+        | cons e r ih =>
+          intro st hc
+          simp only [List.foldl_cons, hc, if_true]
+          apply ih
+          unfold purgeOne
+          split
+          · exact hc
+          · split
+            · exact hc
+            · exact hc
+      obtain ⟨_, _, _, _, h5, _, _⟩ := remFold_all hrem hi
+      rw [hsame s.txs s rfl] at h5
+      exact h5 w.tx hk w hw rfl hx
+    · intro hnx
+      refine remFold_keeps (remStep_purgeOne h expired) (fun cfg w' => ¬ ttlExpired cfg h expired w')
+        ?_ s.txs s hi (fun w' hw' => List.mem_map_of_mem (f := (·.tx)) hw') hi.nodup w hw hnx
+      intro st w' _ _ hK
+      unfold purgeOne
+      split
+      · rename_i h1; exact absurd (Or.inl h1) hK
+      · split
+        · rename_i h2; exact absurd (Or.inr ⟨by simpa using h2.1, h2.2⟩) hK
+        · rfl
 
 theorem recheck_spec {s : State} (hi : Inv s) (rv : Bytes → Verdict) :
     Inv (recheckTransactions s rv) ∧ (recheckTransactions s rv).cfg = s.cfg ∧
@@ -786,9 +946,12 @@ theorem flush_empties {s : State} (hi : Inv s) :
 theorem step_spec {s : State} (hi : Inv s) (op : Op) :
     Inv (step s op) ∧ (step s op).cfg = s.cfg ∧ (Bounded s → Bounded (step s op)) := by
   cases op with
-  | check tx v =>
+  | check tx v p =>
     obtain ⟨h1, h2, h3, _⟩ := checkTx_spec hi tx v
-    exact ⟨h1, h2, h3⟩
+    have hc := (checkTxFrom_core s tx v p).1
+    have hcfg : (checkTxFrom s tx v p).1.cfg = (checkTx s tx v).1.cfg := by
+      have := congrArg (·.2.2.2.1) hc; simpa [Core] using this
+    exact ⟨inv_of_core hc h1, hcfg.trans h2, fun hb => bounded_of_core hc (h3 hb)⟩
   | update h b pre post rv ex =>
     obtain ⟨h1, h2, h3, _⟩ := update_spec hi h b pre post rv ex
     exact ⟨h1, h2, h3⟩
@@ -1060,7 +1223,7 @@ theorem cacheOK_flush {n : Int} {s : State} (h : s.cache.OKn n) : (flush s).cach
 theorem cacheOK_step {n : Int} {s : State} (h : s.cache.OKn n) (op : Op) :
     (step s op).cache.OKn n := by
   cases op with
-  | check tx v => exact cacheOK_checkTx h tx v
+  | check tx v p => exact (checkTxFrom_core s tx v p).2 ▸ cacheOK_checkTx h tx v
   | update ht b pre post rv ex => exact cacheOK_update h ht b pre post rv ex
   | flush => exact cacheOK_flush h
 
